@@ -84,6 +84,7 @@ InitNode ==
     pc       |-> [r \in Rounds |-> EmptyVS],
     tracked  |-> {0},         \* rounds that have a RoundVoteSet (HeightVoteSet.roundVoteSets)
     catchup  |-> [p \in Vals |-> 0],   \* HeightVoteSet.peerCatchupRounds sizes
+    lastCommit |-> [r |-> -1, votes |-> EmptyVS],   \* cs.LastCommit: the precommits of the commit round
     decision |-> Nil,         \* block saved by finalizeCommit
     panic    |-> "none",      \* reason if the code would panic
     stuck    |-> FALSE,       \* left the modelled rounds
@@ -111,7 +112,7 @@ TryFinalizeCommit(s) ==
   ELSE IF s.propBlock # maj THEN s
   ELSE IF ~Valid(maj) /\ ~W("CommitSkipsValidate") THEN Panic(s, "committed an invalid block")
   ELSE \* SaveBlock, WAL end-height, ApplyBlock, updateToState (height+1, round 0, NewHeight), scheduleRound0
-       Sched([s EXCEPT !.decision = maj, !.height = 2, !.round = 0, !.step = StNewHeight,
+       Sched([s EXCEPT !.decision = maj, !.lastCommit = [r |-> s.commitR, votes |-> s.pc[s.commitR]], !.height = 2, !.round = 0, !.step = StNewHeight,
                        !.prop = NoProp, !.propBlock = Nil, !.partsHdr = Nil,
                        !.lockedR = -1, !.lockedV = Nil, !.validR = -1, !.validV = Nil,
                        !.ttp = FALSE, !.commitR = -1,
